@@ -129,6 +129,8 @@ class Gen:
             s = self.sym_atom()
             if s is not None:
                 return s
+        if syms and getattr(self, "real_sym_coeffs", False) and want is None:
+            want = self.r.choice(["int", "float"])       # no complex coefficients next to symbols (recorded finding D6)
         if cands and r < 0.3:
             return self.r.choice(cands)
         if want == "int":
@@ -328,7 +330,7 @@ class Gen:
         return MPF[f](x)
 
     # ------------------------------------------------------------------ values for arguments
-    def arg_val(self, depth, syms):
+    def arg_val(self, depth, syms, allow_array=True):
         r = self.r.random()
         if self.allow_strbool and r < 0.08:
             self.features.add("str")
@@ -336,8 +338,8 @@ class Gen:
         if self.allow_strbool and r < 0.14:
             self.features.add("bool")
             return (self.r.choice(["True", "False"]), "bool")
-        if r < 0.2 and self.allow_arrays:
-            arrs = [nm for nm, i in self.vars.items() if i[0] == "array"]
+        if r < 0.2 and self.allow_arrays and allow_array:
+            arrs = [nm for nm, i in self.vars.items() if i[0] == "array" and None not in i[4]]
             if arrs:
                 self.features.add("array-arg")
                 return (self.r.choice(arrs), "array")
@@ -357,7 +359,7 @@ class Gen:
             keys.append(k)
             if self.r.random() < 0.3:
                 n = self.r.randint(0, 3)
-                items = [self.arg_val(max(0, depth - 1), False)[0] for _ in range(n)]
+                items = [self.arg_val(max(0, depth - 1), False, allow_array=False)[0] for _ in range(n)]
                 self.features.add("kwlist")
                 parts.append("%s=[%s]" % (k, ", ".join(items)))
             else:
